@@ -646,8 +646,14 @@ TlExit(t, ins, me) ==
        ELSE \E i \in Readable(me, x) \cap Insertable(me, x) : RmwAtR(t, me, x, i, mo[x][i].val + 1, "sc", FALSE)
   ELSE Plain(t, me) /\ NoRet /\ UNCHANGED <<st, ob>>
 \* nested with: key o, inside it key o2; returns the inner key's earlier accesses
+\* (the same key nested in itself: one value, initialised once - by the outer access -, two accesses; the inner one
+\* returns the number of accesses before it, the outer one included)
 TlNest(t, ins, me) ==
-  LET k == ins.o  k2 == ins.o2  c == ob.tl[t][k]  c2 == ob.tl[t][k2] IN
+  LET k == ins.o  k2 == ins.o2  c == ob.tl[t][k]  c2 == ob.tl[t][k2]  n == IF c = -1 THEN 0 ELSE c IN
+  IF k = k2
+  THEN /\ ob' = [ob EXCEPT !.tl[t][k] = n + 2, !.tli[k] = IF c = -1 THEN @ + 1 ELSE @]
+       /\ Plain(t, me) /\ Ret(t, n + 1) /\ UNCHANGED st
+  ELSE
   /\ ob' = [ob EXCEPT !.tl[t] = [@ EXCEPT ![k] = IF c = -1 THEN 1 ELSE c + 1, ![k2] = IF c2 = -1 THEN 1 ELSE c2 + 1],
                       !.tli = [@ EXCEPT ![k] = IF c = -1 THEN @ + 1 ELSE @, ![k2] = IF c2 = -1 THEN @ + 1 ELSE @]]
   /\ Plain(t, me) /\ Ret(t, IF c2 = -1 THEN 0 ELSE c2) /\ UNCHANGED st
